@@ -111,6 +111,15 @@ def check(ctx):
         cfgs = [c for c in runlevel.gen_configs(ctx['tier'], ctx['seed']) if c['kind'] == 'GP']
         if ctx['tier'] == 'quick':
             cfgs = cfgs + [c for c in runlevel.gen_configs('thorough', ctx['seed'] + 5) if c['kind'] == 'GP'][:25]
+        # degenerate depth ranges (min_depth == max_depth), a single terminal, every tree re-created by mutation:
+        # whatever the operators re-create is a freshly grown tree inside the space's depth budget
+        deg = []
+        for j, c in enumerate(cfgs[:8 if ctx['tier'] == 'quick' else 40]):
+            d_ = 1 + j % 3
+            deg.append(dict(c, min_depth=d_, max_depth=d_, n_terminals=1 + j % 2, n_agents=10, n_iter=6,
+                            functions=list(runlevel.FUNCSETS[j % len(runlevel.FUNCSETS)]),
+                            hyper={'p_reproduction': 0.2, 'p_mutation': 1.0 if j % 2 else 0.6, 'p_crossover': 0.3, 'prunning_ratio': 0.0}))
+        cfgs = cfgs + deg
         forests = 0
         for c in cfgs:
             c = dict(c, n_iter=max(c['n_iter'], 3))
